@@ -45,7 +45,7 @@ def release_crosscheck(ctx, mods, n_cases, limit=5):
         cur = os.path.join(out_dir, "current_case.json")
         case = json.load(open(cur)) if os.path.exists(cur) else {}
         return {"violations": [{"kind": "failing-input", "what": "release build of the harness died (rc=%d): %s" % (p.returncode, p.stdout[-300:]), "case": case}]}
-    dbg_path = os.path.join(build, "cases", pid, "cases.jsonl")
+    dbg_path = os.path.join(ctx.get("case_dir") or os.path.join(build, "cases", pid), "cases.jsonl")
     rel_path = os.path.join(out_dir, "cases.jsonl")
     try:
         dbg = [json.loads(line) for line in open(dbg_path)]
